@@ -99,6 +99,9 @@ type Case struct {
 	GoMaxPro int               `json:"gomaxprocs,omitempty"`
 	PadDesc  int               `json:"pad_desc,omitempty"` // lengthen the description by this many bytes (alignment sweeps)
 	Key      string            `json:"key,omitempty"`      // harness key the case's configuration signs with (matrix cases)
+	// SignBinary: the callback returns a binary (not armored) OpenPGP
+	// signature for deb debsign
+	SignBinary bool `json:"sign_binary,omitempty"`
 }
 
 type InvalidCase struct {
